@@ -10,7 +10,8 @@
    (stable argsort of the linear index = stable sort by lexicographic order of the tuples) unless
    s, then merges duplicates if h.  Every producer below hands over duplicate-free coordinates
    (proved: the results are canonical), on which the duplicate pass is the identity; it is not
-   modelled.  Cache lookups (`self._cache`) return what the same call returned before; not
+   modelled.  (pad with negative widths is rejected since commit d798d44; coo_make_checked keeps the
+   constructor's range check, which then always passes.)  Cache lookups (`self._cache`) return what the same call returned before; not
    modelled here (C11/C13). *)
 From Coq Require Import ZArith List Bool.
 From Verif Require Import Py Shape COO G_shapeops S_shapeops.
@@ -109,6 +110,14 @@ Fixpoint unravel_strided (sh : shape) (n : Z) : idx :=
 
 (* the pad_width argument: an int, a flat sequence, or a sequence of sequences *)
 Inductive padw := PW0 (p : Z) | PW1 (l : list Z) | PW2 (rows : list (list Z)).
+
+(* (np.asarray(pad_width) < 0).any() *)
+Definition padw_neg (pw : padw) : bool :=
+  match pw with
+  | PW0 p => p <? 0
+  | PW1 l => existsb (fun p => p <? 0) l
+  | PW2 rows => existsb (existsb (fun p => p <? 0)) rows
+  end.
 
 (* np.broadcast_to(row, (2,)) *)
 Definition pad_row (r : list Z) : res (Z * Z) :=
@@ -294,7 +303,8 @@ Section Ops.
     let nd := ndim x in
     src <- norm_axes nd (ax_list source) ;;
     dst <- norm_axes nd (ax_list destination) ;;
-    if negb (length src =? length dst)%nat then Raise ValueError
+    if has_dup dst then Raise ValueError                      (* repeated axis in `destination`   (commit 1529999) *)
+    else if negb (length src =? length dst)%nat then Raise ValueError
     else coo_transpose x (Some (moveaxis_order nd src dst)).
 
   (* -------------------------------------------------------------- reshape / flatten *)
@@ -316,7 +326,11 @@ Section Ops.
     let nd := ndim x in
     let sh := c_shape x in
     let squeezable := filter (fun d => zget sh d 0 =? 1) (zrange nd) in
-    let ax := match axis with AxNone => squeezable | AxInt a => [a] | AxTup l => l end in
+    let ax0 := match axis with AxNone => squeezable | AxInt a => [a] | AxTup l => l end in
+    (* axis = tuple(d + self.ndim if -self.ndim <= d < 0 else d for d in axis)   (commit 71cae31) *)
+    let ax := map (fun d => if (- nd <=? d) && (d <? 0) then d + nd else d) ax0 in
+    (* if len(set(axis)) < len(axis): raise ValueError *)
+    if has_dup ax then Raise ValueError else
     (* for d in axis: if d not in squeezable_dims: raise ValueError(f"... {self.shape[d]}") *)
     _ <- mapM (fun d => if memz d squeezable then Ok tt
                         else if (- nd <=? d) && (d <? nd) then Raise ValueError
@@ -330,10 +344,6 @@ Section Ops.
 
   (* -------------------------------------------------------------- flip / roll *)
 
-  (* Python indexing shape[ax] / coords[ax] with a possibly negative ax *)
-  Definition py_axis (nd ax : Z) : res Z :=
-    if (- nd <=? ax) && (ax <? nd) then Ok (if ax <? 0 then ax + nd else ax) else Raise IndexError.
-
   (* for ax in axis: new_coords[ax] = shape[ax] - 1 - x.coords[ax]   (reads the ORIGINAL coords) *)
   Definition flip_idx (sh : shape) (axes : list Z) (c : idx) : idx :=
     fold_left (fun nc a => zset nc a (zget sh a 0 - 1 - zget c a 0)) axes c.
@@ -341,8 +351,9 @@ Section Ops.
   Definition coo_flip (x : coo V) (axis : axarg) : res (coo V) :=
     let nd := ndim x in
     let ax0 := match axis with AxNone => zrange nd | AxInt a => [a] | AxTup l => l end in
-    ax <- mapM (py_axis nd) ax0 ;;
-    Ok (coo_make (c_shape x) (map_coords (flip_idx (c_shape x) ax) x) (c_fill x) false).
+    ax <- norm_axes nd ax0 ;;                                 (* axis = normalize_axis(axis, x.ndim)   (commit 7be2e09) *)
+    if has_dup ax then Raise ValueError                       (* repeated axis in flip *)
+    else Ok (coo_make (c_shape x) (map_coords (flip_idx (c_shape x) ax) x) (c_fill x) false).
 
   (* the guard `all(can_store(dtype, int(sh)) and can_store(dtype, a.shape[ax] + int(sh)) for ...)`
      holds for every shift on the default index type intp (narrow / unsigned coordinate types are
@@ -376,6 +387,8 @@ Section Ops.
   Definition coo_pad (x : coo V) (pw : padw) (constant_values : V) : res (coo V) :=
     if negb (veqb constant_values (c_fill x)) then Raise ValueError
     else
+      (* if (np.asarray(pad_width) < 0).any(): raise ValueError   (commit d798d44) *)
+      if padw_neg pw then Raise ValueError else
       prs <- pad_pairs (length (c_shape x)) pw ;;
       let before := map fst prs in
       (* the two arithmetic expressions are GENERATED (Gen/S_shapeops.v): coords + before (no cast back to
@@ -405,7 +418,8 @@ Section Ops.
     if idx_eqb sh (c_shape x) then Ok x
     else
       let s1 := rev (c_shape x) in let s2 := rev sh in
-      if negb (bshape_ok_rev s1 s2) then Raise ValueError
+      (* (is_result and len(shape1) > len(shape2)) or not all(...)   (commit 7dd4784) *)
+      if (length s2 <? length s1)%nat || negb (bshape_ok_rev s1 s2) then Raise ValueError
       else
         let bsr := bshape_rev s1 s2 in
         let bs := rev bsr in
